@@ -553,9 +553,13 @@ func genPipeCase(r *vlib.R, emit func(string)) int {
 	for i := 0; i < nd; i++ {
 		s := vlib.Pick(r, sites)
 		copts := "-"
+		proto := vlib.Pick(r, []string{"udp", "tcp", "wudp", "wudp"})
 		switch r.Intn(5) {
 		case 0, 1:
 			copts = genOpts(r, spec, 100, s.ecs, false)
+			if proto[0] == 'w' {
+				copts = genOptsWire(r, spec, s.ecs)
+			}
 		case 2:
 			copts = genOpts(r, spec, 0, nil, true)
 		}
@@ -563,8 +567,12 @@ func genPipeCase(r *vlib.R, emit func(string)) int {
 		if r.Chance(1, 3) {
 			kind = "alias"
 		}
-		emit(fmt.Sprintf("pipe %s %s %d %s %s %d", kind, s.client, next(), vlib.B(r.Chance(1, 5)), copts, 1+r.Intn(2)))
+		emit(fmt.Sprintf("pipe %s %s %s %d %s %s %d", kind, s.client, proto, next(), vlib.B(r.Chance(1, 5)), copts, 1+r.Intn(2)))
 		count++
+		if r.Chance(1, 3) {
+			emit(fmt.Sprintf("pipe sget %d %s %s %s %s %d", next(), vlib.B(r.Chance(1, 5)), vlib.B(r.Chance(1, 5)), vlib.B(r.Chance(1, 5)), vlib.B(r.Chance(1, 5)), 1+r.Intn(2)))
+			count++
+		}
 	}
 	return count
 }
